@@ -8,6 +8,8 @@
 // OB: ob_linear_enum tier=quick unwind=14 unwindfn=vf_byte_:26 timeout=300 params=7 bounds="LC_Linear_Graph<int,uint32_t>: 35 out-index arrays (edges<=3)" desc="readGraph(FileGraph): nodes and per-node edges are exactly the input's, in file order; every access stays inside the (page-rounded) node/edge buffer"
 // OB: ob_linear_enum_void tier=thorough unwind=14 unwindfn=vf_byte_:26 timeout=300 params=7 bounds="LC_Linear_Graph<int,void>: 35 out-index arrays (edges<=3)" desc="readGraph(FileGraph): nodes and per-node edges are exactly the input's, in file order; every access stays inside the (page-rounded) node/edge buffer"
 // OB: ob_linear_enum_e4 tier=thorough unwind=14 unwindfn=vf_byte_:26 timeout=300 params=5,2 bounds="the 21 out-index arrays with 4 edges" desc="LC_Linear_Graph presents the input (4 edges)"
+// OB: ob_linear_enum_t2 tier=quick unwind=14 unwindfn=vf_byte_:26 timeout=300 params=7,2 bounds="LC_Linear_Graph<int,uint32_t> built by TWO constructing threads (allocateFrom, then constructNodesFrom(tid,2) for both, then constructEdgesFrom(tid,2) for both, either thread first): 35 out-index arrays (edges<=3)" desc="the two threads' node/edge blocks do not overlap and the graph presents exactly the input"
+// OB: ob_inline_enum_t2 tier=quick unwind=14 unwindfn=vf_byte_:26 timeout=300 params=7,2 bounds="LC_InlineEdge_Graph<int,uint32_t> built by TWO constructing threads (constructFrom(tid,2), either thread first): 35 out-index arrays (edges<=3)" desc="the graph presents exactly the input"
 // OB: ob_inout_sym tier=quick unwind=14 unwindfn=vf_byte_:26 timeout=300 params=7 bounds="LC_InOut_Graph<LC_CSR_Graph<int,uint32_t>> read from ONE file (symmetric mode): 35 out-index arrays (edges<=3)" desc="out-edges are the input; the in-edge view is the same edge list (in_edge_begin/in_edge_end/getInEdgeDst/getInEdgeData)"
 // OB: ob_inout_asym tier=quick unwind=14 unwindfn=vf_byte_:26 timeout=300 params=7 bounds="LC_InOut_Graph<LC_CSR_Graph<int,uint32_t>> read from TWO files (graph + user-supplied transpose): 35 out-index arrays for the graph; the second file has the same node count and 2 edges split 1+1 between the first and the last node, symbolic destinations/data" desc="out-edges present file 1, in-edges (in_edge_begin/in_edge_end/getInEdgeDst/getInEdgeData) present file 2 exactly, in file order"
 // OB: ob_inout_asym_all tier=thorough unwind=14 unwindfn=vf_byte_:26 timeout=300 params=7,3 bounds="LC_InOut_Graph<LC_CSR_Graph<int,uint32_t>> read from TWO files (graph + user-supplied transpose): 35 out-index arrays for the graph; the second file is one of 3 fixed shapes with the same node count, symbolic destinations/data" desc="out-edges present file 1, in-edges (in_edge_begin/in_edge_end/getInEdgeDst/getInEdgeData) present file 2 exactly, in file order"
@@ -43,14 +45,36 @@ void read_into(G& g, FileGraph& f) {
   galois::graphs::readGraph(g, f);
 }
 
+// two constructing threads, as readGraph's on_each phases run them (each phase completes before the next starts);
+// the two bodies of a phase write disjoint parts of the graph, so they are run one after the other in either order
+// (first = which thread id goes first); finer interleavings of the two bodies are not modelled
+template <typename N, typename E>
+void read_into2(galois::graphs::LC_InlineEdge_Graph<N, E>& g, FileGraph& f, unsigned first) {
+  g.allocateFrom(f);
+  g.constructFrom(f, first, 2);
+  g.constructFrom(f, 1 - first, 2);
+}
+template <typename N, typename E>
+void read_into2(galois::graphs::LC_Linear_Graph<N, E>& g, FileGraph& f, unsigned first) {
+  typename galois::graphs::LC_Linear_Graph<N, E>::ReadGraphAuxData aux;
+  g.allocateFrom(f, aux);
+  g.constructNodesFrom(f, first, 2, aux);
+  g.constructNodesFrom(f, 1 - first, 2, aux);
+  g.constructEdgesFrom(f, first, 2, aux);
+  g.constructEdgesFrom(f, 1 - first, 2, aux);
+}
+
 // pointer-handle graphs: the k-th node of the iteration is input node k
 template <typename G>
-NOINL void enum_ptr(unsigned shape) {
+NOINL void enum_ptr(unsigned shape, unsigned threads = 1, unsigned first = 0) {
   Model m;
   make_model(m, shape);
   FileGraph& f = build_file(m, has_data<G>);
   G& g         = *new G;
-  read_into(g, f);
+  if (threads == 2)
+    read_into2(g, f, first);
+  else
+    read_into(g, f);
   VF_CHECK(g.size() == m.n);
   VF_CHECK(g.sizeEdges() == m.e);
   typename G::GraphNode node[MAXN + 1] = {};
@@ -136,6 +160,8 @@ NOINL void inout_asym(unsigned shape, unsigned t) {
 } // namespace
 
 #define BY_TYPE(fn, A, B) (vf_param(1) == 0 ? fn<A>(s) : fn<B>(s))
+OB(inline_enum_t2) { for_group(0, E4, [](unsigned s) { enum_ptr<InlineW>(s, 2, vf_param(1)); }); }
+OB(linear_enum_t2) { for_group(0, E4, [](unsigned s) { enum_ptr<LinearW>(s, 2, vf_param(1)); }); }
 OB(inline_enum) { for_group(0, E4, [](unsigned s) { enum_ptr<InlineW>(s); }); }
 OB(inline_enum_void) { for_group(0, E4, [](unsigned s) { enum_ptr<InlineV>(s); }); }
 OB(inline_enum_e4) { for_group(E4, 56, [](unsigned s) { BY_TYPE(enum_ptr, InlineW, InlineV); }); }
